@@ -26,7 +26,10 @@ SER = "shuttle-engine/src/scheduler/serialization.rs"
 PROPS = {}
 
 PROPS["C16"] = {
-    "scope": "varint codec complete over all u64 / all byte strings the decoder can read (K); ",
+    "scope": "varint codec complete over all u64 and all byte strings the decoder can read (K); the real body of "
+             "deserialize_schedule returns for every input -- every library precondition (indexing, bit ranges, load width, "
+             "allocation size) holds -- proved unbounded on the extracted text under assumed contracts for hex/bitvec (V)",
+    "verus_units": ["decoder"],
     "kani": [
         K("C16.varint.write_is_enc", "c16_varint_write_is_enc",
           "forall x:u64. write_u64_varint(x) appends enc(x) (LEB128), |enc(x)| == space_needed(x) in 1..=10",
@@ -40,8 +43,12 @@ PROPS["C16"] = {
           [SER + "::varint::read_u64_varint"]),
     ],
     "overlay_files": ["shuttle-engine/src/scheduler/serialization.rs.append.rs"],
-    "assumptions": [],
-    "not_decided": [],
+    "assumptions": ["A-mem: a hex string decodes to fewer than usize::MAX/16 bytes",
+                    "assumed contracts (lane V, decoder unit): whitespace stripping and hex::decode are total; BitSlice::get returns "
+                    "None exactly when out of range; BitField::load needs 1..=usize::BITS bits; BitSlice::from_slice needs <= usize::MAX/8 bytes"],
+    "not_decided": ["round trip serialize->deserialize for whole schedules and whitespace-insensitivity: the bodies are bitvec/hex/"
+                    "iterator code outside Verus' subset, and CBMC does not finish on them even for 8-character concrete inputs "
+                    "(seeded mutant C16-ws-strip is therefore NOT caught: its rewrite anchor is lost => exit 2)"],
 }
 
 PROPS["C15"] = {
